@@ -67,6 +67,75 @@ def _head(e):
     return e["k"].lower()
 
 
+_VPRED = {}
+_REPO = [None]
+
+
+def variant_predicates(repo):
+    """methods `fn p(&self) -> bool { match self { Self::A | Self::B => true, .. => false } }` (or `matches!(self, ..)`):
+    name -> `Enum::A|B`, when the name is unique in the crate.  `x.p()` then reads like the pattern test it is."""
+    if id(repo) in _VPRED:
+        return _VPRED[id(repo)]
+    found = {}
+    for q, f in repo.fns.items():
+        if not f.self_ty or not f.params or f.params[0].get("name") != "self" or len(f.params) != 1:
+            continue
+        b = f.body
+        while b["k"] == "Block" and len(b["stmts"]) == 1 and b["stmts"][0]["k"] == "ExprStmt" and not b["stmts"][0].get("semi"):
+            b = b["stmts"][0]["expr"]
+        yes = None
+        if b["k"] == "Match" and b["scrut"]["k"] == "Path" and b["scrut"]["path"] == "self":
+            yes = []
+            for arm in b["arms"]:
+                body = arm["body"]
+                if body["k"] != "Lit" or body.get("lit") != "bool" or arm.get("guard") is not None:
+                    yes = None
+                    break
+                if body["v"] is True:
+                    vs = A.pat_variants(arm["pat"])
+                    if not vs:
+                        yes = None
+                        break
+                    yes += [v[0].split("::")[-1] for v in vs]
+        if yes:
+            found.setdefault(f.name, []).append(f"{f.self_ty}::{'|'.join(sorted(yes))}")
+    out = {k: v[0] for k, v in found.items() if len(v) == 1}
+    _VPRED[id(repo)] = out
+    return out
+
+
+def _match_filter(clo, fn):
+    """`|x| match <scrut> { P1 => Some(..), P2 | P3 => None }` -> (scrut expr, 'Enum::V1|V2' of the arms kept), or None"""
+    body = clo["body"]
+    while body["k"] == "Block" and len(body["stmts"]) == 1 and body["stmts"][0]["k"] == "ExprStmt" and not body["stmts"][0].get("semi"):
+        body = body["stmts"][0]["expr"]
+    if body["k"] != "Match":
+        return None
+    kept, enum = [], None
+    for arm in body["arms"]:
+        b = arm["body"]
+        while b["k"] == "Block" and len(b["stmts"]) == 1 and b["stmts"][0]["k"] == "ExprStmt" and not b["stmts"][0].get("semi"):
+            b = b["stmts"][0]["expr"]
+        some = b["k"] == "Call" and b["func"]["k"] == "Path" and b["func"]["path"] == "Some"
+        none = b["k"] == "Path" and b["path"] == "None"
+        if not (some or none) or arm.get("guard") is not None:
+            return None
+        if some:
+            vs = A.pat_variants(arm["pat"])
+            if not vs:
+                return None  # a wildcard arm keeps elements: not a variant filter
+            for v, _ in vs:
+                segs = v.split("::")
+                en = segs[-2] if len(segs) > 1 else "?"
+                if en == "Self":
+                    en = fn.self_ty or "Self"
+                enum = enum or en
+                kept.append(segs[-1])
+    if not kept:
+        return None
+    return body["scrut"], f"{enum}::{'|'.join(sorted(kept))}"
+
+
 def render(e, env, budget=3):
     """Name-free, bounded rendering of an expression: parameters by position, typed locals by their declared type, other locals
     by (a bounded rendering of) what they were computed from, loop variables / closure parameters as elem[<iterable>]."""
@@ -90,6 +159,8 @@ def render(e, env, budget=3):
             return render(e["recv"], env, budget)
         if e["method"] in ("filter", "skip_while", "take_while", "inspect", "peekable", "by_ref") and all(a["k"] == "Closure" for a in e["args"]):
             return render(e["recv"], env, budget)
+        if not e["args"] and _REPO[0] is not None and e["method"] in variant_predicates(_REPO[0]):
+            return f"is<{variant_predicates(_REPO[0])[e['method']]}>({render(e['recv'], env, budget)})"
         args = ", ".join("<closure>" if a["k"] == "Closure" else render(a, env, budget) for a in e["args"])
         return f"{render(e['recv'], env, budget)}.{e['method']}({args})"
     if k == "Call":
@@ -283,6 +354,7 @@ def _index_params(fn):
 
 
 def _exemptions(repo, fn):
+    _REPO[0] = repo
     _index_params(fn)
     descend_names = {q.split("::")[-1] for q in validators(repo, extra=EXTRA_VALIDATORS)} - {"from_grammar", "parse", "from_str"}
     envs = A.collect_envs(fn)
@@ -367,6 +439,9 @@ def _exemptions(repo, fn):
                 continue
             if e is None or txt.startswith("Ok(") or txt in ("()", "true", "false", "None"):
                 out.append(("return-ok", guard_chain(n) + (" => " + txt[:40] if txt else ""), n["l"]))
+        elif k == "MethodCall" and n["method"] == "filter_map" and n["args"] and n["args"][0]["k"] == "Closure" and _match_filter(n["args"][0], fn):
+            scrut, keep = _match_filter(n["args"][0], fn)
+            out.append(("filter", f"is<{keep}>({render(scrut, envs.get(id(scrut)))})", n["l"]))
         elif k == "MethodCall" and n["method"] in DROPPERS:
             clo = [a for a in n["args"] if a["k"] == "Closure"]
             if clo:
